@@ -444,6 +444,11 @@ def conf_terms(cases, observations):
             terms.append("false")
             flags.append(False)
             continue
+        if c.get("nomodel"):
+            # interleaved (parked-modulator) histories: outside the sequential model; monitors only
+            terms.append("true")
+            flags.append(True)
+            continue
         ops_t, obs_t = [], []
         good = True
         for op, o in zip(c["ops"], ob["ops"]):
